@@ -146,7 +146,8 @@ def _cm(t, st):
 def run(ctx):
     t_start = time.time()
     ok, why = ctx.proof_stage("Props.C01", ["eval_correct", "check_answer_alarm_sound", "placeholder_generic", "unique_sound_exact", "f14_refuted", "f14b_refuted", "f1_refuted", "f7q_refuted",
-                                           "eval_goal_fuel_sufficient", "check_answer_ok_sound", "check_answer_closed_ok_sound", "known_classes_narrow"])
+                                           "eval_goal_fuel_sufficient", "check_answer_ok_sound", "check_answer_closed_ok_sound", "known_classes_narrow",
+                                           "eval_inv_false_sound", "sat_inv_clean", "sat_inv_le", "neg_inv_differ"])
     if not ok:
         ctx.violation({"kind": "proof", "broken": why}, no_input=True)
         return
@@ -221,6 +222,8 @@ def run(ctx):
     if failures:
         raise core.CheckFailure("coq evaluation failed: %s" % (failures[0],))
 
+    # `not` below hypotheses that mention placeholders (closed goals): literal vs inversion reading
+    inv_of = sc.inv_readings(ctx.work, "inv", items, [k for k, it in enumerate(items) if not pg.has_exists(it.goal) and pg.neg_inv_shape(it.goal)], FUEL)
     frag, cls = {}, {}
     for (k, sname, what), c in zip(meta, codes):
         if what == "frag":
@@ -239,6 +242,23 @@ def run(ctx):
         ans = it.answers[sname][1]
         kind = logic.answer_kind(ans)
         v = logic.verdict_name(c)
+        nv = sc.neg_inv_verdict(inv_of[k], sname, kind) if k in inv_of else None
+        if nv == "known":
+            f = ctx.match_known(None, "NEGINV")
+            if f:
+                ctx.count(sname, (it.key(), sname), nontrivial=True)
+                ctx.known_finding(f, "%s | %s | %s" % (sname, it.goal_text, kind))
+                class_items["NEGINV"] += 1
+                continue
+        elif nv == "inconclusive":
+            not_judged["neg-inv:inversion-reading-inconclusive"] += 1
+            continue
+        elif nv == "violation":
+            d = it.describe()
+            d.update({"kind": "differs-from-inversion-reading", "solver": sname, "answer": sx.to_sexp(ans)[:600],
+                      "relation": "neg_inv_shape goal: literal reading true, inversion reading false (eval_inv_false_sound); chalk implements the inversion reading, NoSolution is required"})
+            ctx.violation(d)
+            continue
         nontrivial = kind in ("Unique", "NoSolution", "AmbigDefinite")
         ctx.count(sname, (it.key(), sname), nontrivial=nontrivial)
         hist["%s:%s:%s:%s" % (sname, it.kind, kind, v.split(":")[0])] += 1
